@@ -612,6 +612,7 @@ func (fr *Frame) applyContract(st *State, con *Contract, fn *ssa.Function, args 
 		for _, as := range con.Assigns {
 			fr.havocLoc(st, pre, as.Expr, env, con.Pkg)
 		}
+		g.bumpTop(st) // the callee may allocate: its results may be objects that did not exist before the call
 	}
 	// results
 	res := g.havocVal("r_"+sanitize(fn.Name()), resT)
@@ -934,6 +935,7 @@ func (fr *Frame) applyIfaceContract(st *State, con *Contract, c *ssa.CallCommon,
 		for _, as := range con.Assigns {
 			fr.havocLoc(st, pre, as.Expr, env, con.Pkg)
 		}
+		g.bumpTop(st)
 	}
 	res := g.havocVal("r_"+sanitize(c.Method.Name()), resT)
 	fr.knownRefVal(st, res)
@@ -971,6 +973,7 @@ func (fr *Frame) applyFuncTypeContract(st *State, con *Contract, c *ssa.CallComm
 		for _, as := range con.Assigns {
 			fr.havocLoc(st, pre, as.Expr, env, con.Pkg)
 		}
+		g.bumpTop(st)
 	}
 	res := g.havocVal("r_"+sanitize(shortKey(con.Key)), resT)
 	fr.knownRefVal(st, res)
